@@ -120,21 +120,38 @@ def succeeded_before(fn, site_block, is_target, _depth=0):
         if t['k'] != 'switch' or not is_place(t['op']) or t['op']['pl']['p']:
             continue
         sd = fn.single_def(t['op']['pl']['l'])
-        if not sd or sd[2] != 'assign' or sd[3]['rv']['k'] != 'discr':
-            continue
-        dpl = sd[3]['rv']['pl']
-        ty = fn.local_ty(dpl['l']) if not dpl['p'] else (dpl.get('ty') or '')
-        want = next((v for pre, v in _SUCCESS.items() if ty.startswith(pre)), None)
-        if want is None:
-            continue
-        order = {'Ok': 0, 'Some': 1, 'Continue': 0}[want]
         vals = [v for v, tb in t['targets'] if tb == s]
-        if vals == [order] and t['otherwise'] != s:
-            pass
-        elif t['otherwise'] == s and not vals and sorted(v for v, _ in t['targets']) == [1 - order]:
-            pass
+        if sd and sd[2] == 'call' and callee_name(sd[3]).endswith(('Result::<T, E>::is_ok', 'Result::<T, E>::is_err', 'Option::<T>::is_some', 'Option::<T>::is_none')) and is_place(sd[3]['args'][0]):
+            # `x.is_ok()` taken / `x.is_err()` not taken: x is in its success variant
+            n_ = callee_name(sd[3])
+            pos = n_.endswith(('is_ok', 'is_some'))
+            truthy = (t['otherwise'] == s and not vals) or (vals and vals != [0])
+            if pos != truthy:
+                continue
+            base = fn.canon({'l': sd[3]['args'][0]['pl']['l'], 'p': sd[3]['args'][0]['pl']['p'] + ['deref'], 'ty': ''})
+            if base['p']:
+                continue
+            dpl = {'l': base['l'], 'p': [], 'ty': ''}
+            ty = fn.local_ty(base['l'])
+            want = next((v for pre, v in _SUCCESS.items() if ty.startswith(pre)), None)
+            if want is None:
+                continue
+            sd = (sd[0], sd[1])
         else:
-            continue
+            if not sd or sd[2] != 'assign' or sd[3]['rv']['k'] != 'discr':
+                continue
+            dpl = sd[3]['rv']['pl']
+            ty = fn.local_ty(dpl['l']) if not dpl['p'] else (dpl.get('ty') or '')
+            want = next((v for pre, v in _SUCCESS.items() if ty.startswith(pre)), None)
+            if want is None:
+                continue
+            order = {'Ok': 0, 'Some': 1, 'Continue': 0}[want]
+            if vals == [order] and t['otherwise'] != s:
+                pass
+            elif t['otherwise'] == s and not vals and sorted(v for v, _ in t['targets']) == [1 - order]:
+                pass
+            else:
+                continue
         leaves = origins.trace(fn, dpl['l'], origins.norm_path(dpl['p']) + [('down', want)], at=(sd[0], sd[1]))
         if not leaves:
             continue
